@@ -548,8 +548,13 @@ func (s *scanningState) scan(line []byte) (bool, error) {
 					s.Goroutines = make([]*Goroutine, 0, 4)
 				}
 				s.Goroutines = append(s.Goroutines, g)
+				if s.state == looking {
+					// The indentation of the first goroutine is the indentation of
+					// the whole dump; it was already stripped from the following
+					// headers.
+					s.prefix = append([]byte{}, match[1]...)
+				}
 				s.state = gotRoutineHeader
-				s.prefix = append([]byte{}, match[1]...)
 				return true, nil
 			}
 		}
